@@ -75,14 +75,14 @@ def make_statement(spec: dict) -> Any:
     if kind == 'str':
         return src
     if kind == 'code':
-        return compile(src, '<string>', 'exec')
+        return compile(src, '<string>', 'exec', dont_inherit=True)
     if kind == 'path':
         p = Path(spec['tmpdir']) / f"script_{abs(hash(src)) % 10**8}.py"
         p.write_text(src)
         return p
     if kind == 'callable':
         g: dict = {'__name__': '__nlv_callable__'}
-        exec(compile(src + '\n', '<callable>', 'exec'), g)
+        exec(compile(src + '\n', '<callable>', 'exec', dont_inherit=True), g)
         return g['main']
     raise ValueError(kind)
 
@@ -103,7 +103,7 @@ def reference(spec: dict) -> dict:
             src = spec['source']
             if kind == 'path':
                 fname = str(make_statement(spec))
-            exec(compile(src, fname, 'exec'), {'__name__': _mod()})
+            exec(compile(src, fname, 'exec', dont_inherit=True), {'__name__': _mod()})
     except BaseException as e:  # noqa
         exc = e
     finally:
@@ -137,7 +137,7 @@ def recorder(spec: dict, all_modules: bool = False) -> dict:
                 make_statement(spec)()
             else:
                 fname = '<string>' if kind != 'path' else str(make_statement(spec))
-                exec(compile(spec['source'], fname, 'exec'), {'__name__': mod})
+                exec(compile(spec['source'], fname, 'exec', dont_inherit=True), {'__name__': mod})
         except BaseException:  # noqa
             pass
     finally:
